@@ -410,11 +410,8 @@ fn single_series(em: &mut Emitter, rng: &mut Rng, s: &Series, full: bool) {
         valid_groups!(em, "f", "f64", "opt", s, cf, &vals_o, vals_f_coq, shown, || &o, || o.titer(), all);
     }
     if pick(rng) {
-        let mut d: VecDeque<f64> = VecDeque::with_capacity(xf.len() + 3);
-        // rotate the ring so that the data wraps around
-        for _ in 0..2 { d.push_back(0.0) }
-        for _ in 0..2 { d.pop_front(); }
-        for x in &xf { d.push_back(*x) }
+        // a ring buffer whose data wraps around the end of its allocation
+        let d: VecDeque<f64> = vh::wrapped_deque(&xf);
         valid_groups!(em, "f", "f64", "deque", s, cf, &vals_f, vals_f_coq, shown, || d.titer(), || d.titer(), all);
         valid_groups!(em, "f", "f64", "deque_owned", s, cf, &vals_f, vals_f_coq, shown, || d.clone(), || d.clone(), 5);
     }
